@@ -374,9 +374,24 @@ func (g *G) genHostOverride(id string) *History {
 		at += pick(g, sec, 5*sec, 20*sec)
 	}
 	if g.chance(0.3) {
-		// an unsafe request under one Host invalidates what is stored for THAT authority
-		h.Ops = append(h.Ops, Op{Op: "req", AtNs: at, Method: "POST", URL: url, Host: hosts[g.r.Intn(2)],
-			Replies: []Reply{{Status: 200, BodyFail: -1, Body: "w", Hdr: Hdr{{"Date", dateAt(at, 0)}}}}})
+		// an unsafe request under one Host invalidates what is stored for THAT authority — also through Location /
+		// Content-Location: a reference is resolved against, and its origin compared with, the authority the origin
+		// server was given (Request.Host), not the address the connection went to
+		hd := Hdr{{"Date", dateAt(at, 0)}}
+		ph := hosts[g.r.Intn(2)]
+		if g.chance(0.6) {
+			path := "/private"
+			if i := strings.Index(url[8:], "/"); i >= 0 {
+				path = url[8+i:]
+			}
+			scheme := url[:strings.Index(url, "://")]
+			hd = append(hd, [2]string{pick(g, "Location", "Content-Location"), pick(g, path, scheme+"://"+ph+path, "//"+ph+path, scheme+"://"+hosts[1-indexOf(hosts, ph)]+path, url)})
+			h.Ops = append(h.Ops, Op{Op: "req", AtNs: at, Method: "POST", URL: strings.Replace(url, path, "/other-target", 1), Host: ph,
+				Replies: []Reply{{Status: pick(g, 200, 201, 303), BodyFail: -1, Body: "w", Hdr: hd}}})
+		} else {
+			h.Ops = append(h.Ops, Op{Op: "req", AtNs: at, Method: "POST", URL: url, Host: ph,
+				Replies: []Reply{{Status: 200, BodyFail: -1, Body: "w", Hdr: Hdr{{"Date", dateAt(at, 0)}}}}})
+		}
 		at += sec
 		for i := 0; i < 2; i++ {
 			h.Ops = append(h.Ops, Op{Op: "req", AtNs: at, Method: "GET", URL: url, Host: hosts[i],
@@ -385,6 +400,15 @@ func (g *G) genHostOverride(id string) *History {
 		}
 	}
 	return h
+}
+
+func indexOf(l []string, s string) int {
+	for i, x := range l {
+		if x == s {
+			return i
+		}
+	}
+	return 0
 }
 
 // genZoneDates: valid HTTP-dates in the obsolete rfc850 and asctime layouts (recipients must accept all three
